@@ -19,11 +19,11 @@ Your task: make ONE small, realistic change to the goProbe source in the worktre
   (b) the existing test suite still passes, and
   (c) the breakage needs something specific to manifest — a particular interleaving, a crash or I/O fault at a particular point, a multi-step sequence of operations, an unusual input (boundary size, specific value class), a specific configuration, or two cooperating code sites that each look fine alone — NOT something ordinary use would expose at once (a change that makes every query wrong is useless).
 
-Then write a demonstration: a Go test (preferred; a new *_test.go file in a suitable package of the worktree) or a small program that FAILS with your change and PASSES without it. Verify both directions yourself (use `git stash` / `git stash pop` on the source change, keeping the demo file).
+Then write a demonstration: a Go test (preferred; a new *_test.go file in a suitable package of the worktree) or a small program that FAILS with your change and PASSES without it. Verify both directions yourself (save your change with `git diff > /tmp/<your-own-name>.diff`, undo it with `git apply -R`, re-apply with `git apply`; NEVER use `git stash`: the stash is shared between all worktrees of the repository and other people work in sibling worktrees).
 
 Environment (offline sandbox, no network): run go commands inside the worktree with
   export GOPROXY=off    # do NOT set GOFLAGS or GOSUMDB (the worktree is a Go workspace)
-`go test ./pkg/...` etc. work offline. The full existing suite is: `cd {wt} && go test -count=1 -timeout 25m ./...` (takes several minutes; pkg/e2etest ≈ 3 min, pkg/capture ≈ 1.5 min). One test, TestResolveInConditional in pkg/goDB/conditions/node, always fails in this sandbox because there is no DNS — ignore exactly that one. Run at least the packages you touched plus pkg/goDB/..., pkg/capture/..., pkg/query/..., pkg/results/..., cmd/... ; run the full suite once at the end. Always wrap long commands in `timeout`. The worktree has some files guarded by the build tag `verif` (pkg/verifhook, export_verif.go files) — ignore them and do not change them.
+`go test ./pkg/...` etc. work offline. The full existing suite is: `cd {wt} && go test -count=1 -timeout 25m ./...` (takes several minutes; pkg/e2etest ≈ 3 min, pkg/capture ≈ 1.5 min). One test, TestResolveInConditional in pkg/goDB/conditions/node, always fails in this sandbox because there is no DNS — ignore exactly that one. Run at least the packages you touched plus pkg/goDB/..., pkg/capture/..., pkg/query/..., pkg/results/..., cmd/... ; run the full suite once at the end. Always wrap long commands in `timeout`. Other people run go commands on this machine at the same time: never use `pkill`, `killall` or `kill` by name pattern — only kill process ids you started yourself. The worktree has some files guarded by the build tag `verif` (pkg/verifhook, export_verif.go files) — ignore them and do not change them.
 
 Deliverables, all inside {wt}/_seed/ :
   - patch.diff : `git diff` of the source change only (without the demo file and without _seed/),
